@@ -5,6 +5,7 @@ import (
 	"encoding/hex"
 	"fmt"
 	"math/rand"
+	"sort"
 	"strings"
 	"time"
 
@@ -24,10 +25,17 @@ func main() { drv.Main("record", recordDriver) }
 //
 //	one event   = one transaction of `who` with len(digests) MsgCreateRecord messages
 //	              (+ a bank send that must fail when poison)
-//	contents    abstract value v = parts joined by "+"; part p <-> Content{Digest: D(p),
-//	            DigestAlgo "sha256", URI "uri-p", Meta "meta-p"}; D(p) = p, or a long
-//	            pseudo-random string when p starts with "L"; "" = no contents, "!" = a
-//	            content without digest (both refused by ValidateBasic)
+//	contents    abstract value v = entries joined by "+"; entry  base[~var][^algo]  <->
+//	            Content{Digest: D(base), DigestAlgo: algo (default "sha256"), URI, Meta} with
+//	            URI/Meta = "uri-base"/"meta-base" (no var), ""/"" (var e), long strings (var L),
+//	            "uri-base-mK"/"meta-base-mK" (any other var K: the same file at another mirror);
+//	            D(base) = base, or a long pseudo-random string when base starts with "L";
+//	            "" = no contents, "!" = a content without digest (both refused by ValidateBasic).
+//	            FIDELITY: what is read back is turned into an abstract value only through the
+//	            canonical text of EVERY field of EVERY entry in order (canon): the stored
+//	            contents get the value v iff they equal, field by field, the message the
+//	            harness built for v; anything else is logged as "?<hash of what was read>".
+//	            ev.shape lists what the submitted entry lists look like (coverage counters).
 //	record ids  real hex ids are named r1, r2, ... in the order the message responses
 //	            return them; an id returned again keeps its first name
 //	tx hashes   named by the event's tx field (t1, t2, ...)
@@ -48,7 +56,8 @@ type recEnv struct {
 	txName   map[string]string // upper-case hex tx hash -> name
 	idName   map[string]string // upper-case hex id -> name
 	idOrder  []string          // hex ids in naming order
-	digestOf map[string]string // expanded digest -> abstract part
+	valueOf  map[string]string // canonical text of a built contents list -> abstract value
+	orders   map[string]string // sorted entry multiset -> canonical text first seen in that order
 	winFirst int64
 	winMod   int64
 	prevRest int
@@ -69,7 +78,7 @@ func usersIn(beh []chain.M) int {
 
 func newRecEnv(fl *drv.Flags, winFirst, winMod int64, minUsers int) *recEnv {
 	e := &recEnv{names: map[string]string{}, txName: map[string]string{}, idName: map[string]string{},
-		digestOf: map[string]string{}, winFirst: fl.CfgInt("winfirst", winFirst), winMod: fl.CfgInt("winmod", winMod)}
+		valueOf: map[string]string{}, orders: map[string]string{}, winFirst: fl.CfgInt("winfirst", winFirst), winMod: fl.CfgInt("winmod", winMod)}
 	n := int(fl.CfgInt("users", 2))
 	if minUsers > n {
 		n = minUsers
@@ -106,16 +115,50 @@ func (e *recEnv) dump(ctx sdk.Context) any {
 	return s
 }
 
-func (e *recEnv) expandDigest(p string) string {
-	d := p
-	if strings.HasPrefix(p, "L") {
-		h := sha256.Sum256([]byte("long-" + p))
-		d = strings.Repeat(hex.EncodeToString(h[:]), 8)
+func expandDigest(base string) string {
+	if strings.HasPrefix(base, "L") {
+		h := sha256.Sum256([]byte("long-" + base))
+		return strings.Repeat(hex.EncodeToString(h[:]), 8)
 	}
-	e.digestOf[d] = p
-	return d
+	return base
 }
 
+// entryOf builds the content entry of one abstract entry  base[~var][^algo].
+func entryOf(p string) recordtypes.Content {
+	algo := "sha256"
+	if i := strings.Index(p, "^"); i >= 0 {
+		p, algo = p[:i], p[i+1:]
+	}
+	base, v := p, ""
+	hasVar := false
+	if i := strings.Index(p, "~"); i >= 0 {
+		base, v, hasVar = p[:i], p[i+1:], true
+	}
+	c := recordtypes.Content{Digest: expandDigest(base), DigestAlgo: algo, URI: "uri-" + base, Meta: "meta-" + base}
+	switch {
+	case !hasVar:
+	case v == "e":
+		c.URI, c.Meta = "", ""
+	case v == "L":
+		c.URI = "uri-" + base + "-" + strings.Repeat("u", 200)
+		c.Meta = "meta-" + base + "-" + strings.Repeat("m", 1000)
+	default:
+		c.URI, c.Meta = "uri-"+base+"-m"+v, "meta-"+base+"-m"+v
+	}
+	return c
+}
+
+// canon is the canonical text of a contents list: every field of every entry, in order.
+func canon(cs []recordtypes.Content) string {
+	var b strings.Builder
+	for _, x := range cs {
+		fmt.Fprintf(&b, "%q %q %q %q|", x.Digest, x.DigestAlgo, x.URI, x.Meta)
+	}
+	return b.String()
+}
+
+// expand builds the contents of a message from the abstract value and remembers
+// the canonical text of what was built (the submitted side of the comparison).
 func (e *recEnv) expand(v string) []recordtypes.Content {
 	if v == "" {
 		return nil
@@ -125,25 +168,76 @@ func (e *recEnv) expand(v string) []recordtypes.Content {
 	}
 	var out []recordtypes.Content
 	for _, p := range strings.Split(v, "+") {
-		out = append(out, recordtypes.Content{Digest: e.expandDigest(p), DigestAlgo: "sha256", URI: "uri-" + p, Meta: "meta-" + p})
+		out = append(out, entryOf(p))
+	}
+	if _, ok := e.valueOf[canon(out)]; !ok {
+		e.valueOf[canon(out)] = v
 	}
 	return out
 }
 
+// compress names what was read back (the query side): the abstract value whose
+// built message it equals in every field of every entry, else a hash of it.
 func (e *recEnv) compress(cs []recordtypes.Content) string {
-	var parts []string
-	for _, c := range cs {
-		p, ok := e.digestOf[c.Digest]
-		if !ok || c.DigestAlgo != "sha256" || c.URI != "uri-"+p || c.Meta != "meta-"+p {
-			h := sha256.New()
-			for _, x := range cs {
-				fmt.Fprintf(h, "%q %q %q %q|", x.Digest, x.DigestAlgo, x.URI, x.Meta)
-			}
-			return "?" + hex.EncodeToString(h.Sum(nil))[:12]
-		}
-		parts = append(parts, p)
+	k := canon(cs)
+	if v, ok := e.valueOf[k]; ok {
+		return v
 	}
-	return strings.Join(parts, "+")
+	h := sha256.Sum256([]byte(k))
+	return fmt.Sprintf("?%d:%s", len(cs), hex.EncodeToString(h[:])[:12])
+}
+
+// shapeOf: coverage tags of the entry lists an event submits.
+func (e *recEnv) shapeOf(digests []any) []any {
+	tags := map[string]bool{}
+	for _, d := range digests {
+		v, _ := d.(string)
+		if v == "" || v == "!" {
+			continue
+		}
+		cs := e.expand(v)
+		if len(cs) >= 2 {
+			tags["multi_entry"] = true
+		}
+		if len(cs) >= 4 {
+			tags["four_entries"] = true
+		}
+		var keys []string
+		for i, a := range cs {
+			keys = append(keys, canon([]recordtypes.Content{a}))
+			if a.Meta == "" && a.URI == "" {
+				tags["empty_meta"] = true
+			}
+			if len(a.Meta) > 500 {
+				tags["long_meta"] = true
+			}
+			if len(a.Digest) > 100 {
+				tags["long_digest"] = true
+			}
+			for _, b := range cs[:i] {
+				switch {
+				case a == b:
+					tags["identical_entries"] = true
+				case a.Digest == b.Digest && a.DigestAlgo == b.DigestAlgo:
+					tags["share_digest"] = true
+				case a.Digest == b.Digest && a.URI == b.URI && a.Meta == b.Meta:
+					tags["algo_only"] = true
+				}
+			}
+		}
+		sort.Strings(keys)
+		ms := strings.Join(keys, "")
+		if first, ok := e.orders[ms]; ok && first != canon(cs) {
+			tags["reordered"] = true
+		} else if !ok {
+			e.orders[ms] = canon(cs)
+		}
+	}
+	out := []any{}
+	for _, t := range chain.SortedKeys(tags) {
+		out = append(out, t)
+	}
+	return out
 }
 
 func (e *recEnv) absRec(r recordtypes.Record) chain.M {
@@ -212,7 +306,7 @@ func recEvent(name, who string, digests []any, tx string, poison bool) chain.M {
 		digests = []any{}
 	}
 	return chain.M{"name": name, "who": who, "digests": digests, "tx": tx, "poison": poison,
-		"ok": true, "panic": false, "ids": []any{}}
+		"ok": true, "panic": false, "ids": []any{}, "shape": []any{}}
 }
 
 func (e *recEnv) norm(ev chain.M) chain.M {
@@ -258,6 +352,7 @@ func (e *recEnv) runBlock(pending []chain.M, w *chain.TraceWriter) {
 	for i, ev := range pending {
 		r := res.Txs[i]
 		ev["ok"], ev["panic"] = r.OK, r.Panic
+		ev["shape"] = e.shapeOf(ev["digests"].([]any))
 		e.ntx++
 		name := chain.Str(ev, "tx")
 		if name == "" {
@@ -363,7 +458,57 @@ func recordDriver(mode string, fl *drv.Flags) error {
 func recRandom(fl *drv.Flags, rng *rand.Rand, w *chain.TraceWriter) {
 	e := newRecEnv(fl, 20, 10, 0)
 	e.start(w)
-	pool := []string{"a", "b", "c", "a+b", "b+a", "L1", "L2", "L3+a"}
+	pool := []string{"a", "b", "c", "a+b", "b+a", "L1", "L2", "L3+a", "a+a", "a+a~1", "a^md5+a", "a~e", "b~L+b"}
+	bases := []string{"a", "b", "c", "L1"}
+	vars := []string{"", "", "~1", "~2", "~e", "~L"}
+	algos := []string{"", "", "", "^md5", "^sha512"}
+	rndEntry := func() string {
+		return bases[rng.Intn(len(bases))] + vars[rng.Intn(len(vars))] + algos[rng.Intn(len(algos))]
+	}
+	baseOf := func(p string) string {
+		if i := strings.IndexAny(p, "~^"); i >= 0 {
+			return p[:i]
+		}
+		return p
+	}
+	// an entry list of 1..4 entries; later entries often repeat an earlier one
+	// entirely, or keep its digest and change mirror (uri/meta) or only the algo
+	rndList := func() string {
+		k := 1 + rng.Intn(4)
+		var es []string
+		for i := 0; i < k; i++ {
+			if i > 0 && rng.Intn(10) < 6 {
+				prev := es[rng.Intn(len(es))]
+				switch rng.Intn(3) {
+				case 0:
+					es = append(es, prev)
+				case 1:
+					alg := ""
+					if j := strings.Index(prev, "^"); j >= 0 {
+						alg = prev[j:]
+					}
+					es = append(es, baseOf(prev)+vars[2+rng.Intn(4)]+alg)
+				default:
+					v := prev
+					if j := strings.Index(v, "^"); j >= 0 {
+						v = v[:j]
+					} else {
+						v += "^md5"
+					}
+					es = append(es, v)
+				}
+				continue
+			}
+			es = append(es, rndEntry())
+		}
+		return strings.Join(es, "+")
+	}
+	permute := func(v string) string {
+		es := strings.Split(v, "+")
+		rng.Shuffle(len(es), func(i, j int) { es[i], es[j] = es[j], es[i] })
+		return strings.Join(es, "+")
+	}
+	var lists []string
 	maxMsgs := int(fl.CfgInt("maxmsgs", 4))
 	maxTx := int(fl.CfgInt("maxtx", 3))
 	for b := 0; b < fl.Len; b++ {
@@ -376,8 +521,14 @@ func recRandom(fl *drv.Flags, rng *rand.Rand, w *chain.TraceWriter) {
 			base := pool[rng.Intn(len(pool))]
 			for i := 0; i < k; i++ {
 				d := base
-				if rng.Intn(3) == 0 {
+				switch x := rng.Intn(12); {
+				case x < 3:
 					d = pool[rng.Intn(len(pool))]
+				case x < 6:
+					d = rndList()
+					lists = append(lists, d)
+				case x < 8 && len(lists) > 0:
+					d = permute(lists[rng.Intn(len(lists))]) // same entries, (maybe) another order
 				}
 				if rng.Intn(60) == 0 {
 					d = []string{"", "!"}[rng.Intn(2)]
